@@ -98,6 +98,17 @@ func FindGrouping(n Node, name string, seen map[string]bool) *Grouping {
 				}
 			}
 		}
+		if sm, ok := n.(*Module); ok && sm.Kind() == "submodule" && sm.Modules != nil {
+			// The text of a submodule is text of its module: the
+			// groupings of the module itself and of its other
+			// submodules are visible too (RFC 7950, 5.1).
+			if owner := sm.Modules.Modules[sm.BelongsTo.Name]; owner != nil && !seen[owner.Name] {
+				seen[owner.Name] = true
+				if g := FindGrouping(owner, name, seen); g != nil {
+					return g
+				}
+			}
+		}
 		n = n.ParentNode()
 	}
 	return nil
